@@ -5,12 +5,12 @@ from vp import core, mmd, pmap
 NAMES = ["a.txt", "b.txt", "c.txt", "d.txt"]
 FIXED = {"w.html": b"W-html\n", "w.tex": b"W-tex\n", "w.txt": b"W-txt\n", "w.fodt": b"W-fodt\n",
          "t.txt": b"T-plain\n", "sub/s.txt": b"S-start {{t.txt}} S-end\n", "base/x.txt": b"X-in-base\n", "x.txt": b"X-top\n",
-         "m.txt": b"Title: M\nAuthor: me\n\nM-body {{t.txt}}\n", "tb.txt": b"transclude base: base\n\nTB-body {{x.txt}}\n"}
+         "m.txt": b"Title: M\nAuthor: me\n\nM-body {{t.txt}}\n", "empty.txt": b"", "onlymeta.txt": b"Title: M\nAuthor: me\n", "tb.txt": b"transclude base: base\n\nTB-body {{x.txt}}\n"}
 FORMATS = [("html", 0), ("latex", 2), ("fodt", 5), ("mmd", 11)]
 WILD = {0: ".html", 12: ".html", 1: ".html", 2: ".tex", 3: ".tex", 4: ".tex", 5: ".fodt", 6: ".fodt"}
 
 def targets(n):
-    return NAMES[:n] + ["missing.txt", "TOC", "w.*", "sub/s.txt", "m.txt", "tb.txt", "ABS:t.txt"]
+    return NAMES[:n] + ["missing.txt", "TOC", "w.*", "sub/s.txt", "m.txt", "tb.txt", "ABS:t.txt", "empty.txt"]
 
 def file_body(i, marks, root):
     s = b"F%d-start\n\n" % i
